@@ -11,6 +11,7 @@ import (
 	"sort"
 	"strconv"
 	"strings"
+	"sync"
 	"time"
 
 	ysgo "github.com/remieven/ysgo"
@@ -43,6 +44,8 @@ func rngMain(args []string) error {
 		return rngRecord(m)
 	case "child":
 		return rngChild(m)
+	case "concurrent":
+		return rngConcurrent(m)
 	}
 	return fmt.Errorf("rng: unknown mode %s", args[0])
 }
@@ -222,6 +225,13 @@ func rngRun(c *rngCase, run int, mode string, between func()) []rngEvent {
 		for i := 1; i <= 80; i++ {
 			if between != nil {
 				between()
+				// looking at the runner (taking a snapshot) is not a step of the run
+				if run%2 == 1 || i%3 == 0 {
+					func() {
+						defer func() { recover() }()
+						runner.Snapshot()
+					}()
+				}
 			}
 			var el *ysgo.DialogueElement
 			var nerr error
@@ -544,6 +554,72 @@ func rngExtremeCases(rnd *rand.Rand, firstID, seeds, depth int) []*rngCase {
 		}
 	}
 	return cases
+}
+
+// rngConcurrent (property C18, meant to be built with -race): in every round G goroutines start
+// together, each creating and driving its own SEEDED runner over its own script full of draws; the
+// same (script, seed, choices) were run alone before, one after the other: the event lists must be
+// identical (a runner's stream belongs to that runner, whoever else is alive or drawing).
+//
+//	verifh rng concurrent --g G --rounds R --out diffs.ndjson
+func rngConcurrent(m map[string]string) error {
+	g := argInt(m, "g", 8)
+	rounds := argInt(m, "rounds", 4)
+	dw, err := newNDJSON(m["out"])
+	if err != nil {
+		return err
+	}
+	rnd := rand.New(rand.NewSource(Seed()*977 + 13))
+	strip := func(evs []rngEvent) string {
+		cp := append([]rngEvent(nil), evs...)
+		for i := range cp {
+			cp[i].Run, cp[i].Mode = 0, ""
+		}
+		b, _ := json.Marshal(cp)
+		return string(b)
+	}
+	runs, diffs, id := 0, 0, 0
+	for round := 0; round < rounds; round++ {
+		cases := make([]*rngCase, g)
+		for i := range cases {
+			id++
+			cases[i] = rngGenCase(rnd, id)
+			if round%2 == 1 && i > 0 {
+				cases[i].Seed = cases[0].Seed // same seed: equal streams, still one per runner
+			}
+		}
+		alone := make([]string, g)
+		for i, c := range cases {
+			alone[i] = strip(rngRun(c, 1, "alone", nil))
+		}
+		conc := make([]string, g)
+		var wg sync.WaitGroup
+		start := make(chan struct{})
+		for i := range cases {
+			wg.Add(1)
+			go func(i int) {
+				defer wg.Done()
+				<-start
+				conc[i] = strip(rngRun(cases[i], 2, "concurrent", nil))
+			}(i)
+		}
+		close(start)
+		wg.Wait()
+		for i := range cases {
+			runs++
+			if conc[i] != alone[i] {
+				diffs++
+				if diffs <= 20 {
+					if err := dw.Write(map[string]any{"round": round, "goroutine": i, "goroutines": g, "case": cases[i],
+						"alone": json.RawMessage(alone[i]), "concurrent": json.RawMessage(conc[i])}); err != nil {
+						return err
+					}
+				}
+			}
+		}
+	}
+	fmt.Printf("{\"rounds\":%d,\"runs\":%d,\"diffs\":%d}\n", rounds, runs, diffs)
+	return dw.Close()
 }
 
 // ---------------------------------------------------------------- disturbance
